@@ -30,6 +30,7 @@ pub fn run(args: &Args, r: &mut Report) {
         "c11-every-on-demand-request-asks-reboot-question",
         "c11-request-wakes-waiting-machine",
         "c11-scheduled-operation-survives-handle-drop",
+        "c11-check-runs-with-decided-options",
     ]);
     let n = args.budget(40_000, 400_000);
     for i in 0..n {
@@ -76,7 +77,7 @@ pub fn run(args: &Args, r: &mut Report) {
                 _ => TimeKind::Both,
             };
             let min_wait_s = if rng.bool() { Some(30 + rng.below(900)) } else { None };
-            case.script.timings.push(TimingSpec { kind, offset_s: 600 + rng.below(3600), min_wait_s });
+            case.script.timings.push(TimingSpec { kind, offset_s: 600 + rng.below(3600), min_wait_s, same_as_previous: rng.chance(1, 3) });
         }
         case.shape.push(l);
         case.shape.push(format!("v{}", variant));
@@ -277,6 +278,9 @@ pub fn run(args: &Args, r: &mut Report) {
         {
             let g = lock(&run.w);
             mon_c11(&g.log, &run.flow, drained, &mut m);
+            // "the check then runs with the request's options": every exchange of a check (retries and event
+            // reports included) carries the parameters the policy decided when it was shown those options
+            mon_request_params(&run.flow, &mut m, "c11-check-runs-with-decided-options", "c11-check-runs-with-decided-options");
         }
         m.judge("c11-no-lost-wakeup", run.lost_wakes.is_empty(), "", || format!("{:?}", run.lost_wakes));
         if let Some(p) = &run.panicked {
